@@ -60,4 +60,9 @@ def tasks_for(prop, tier):
         mod = None
     if mod is not None:
         out += mod.tasks(tier)
+    if tier == "thorough" or prop == "C01":
+        from vc import validate
+        seeds = (0, 1, 2, 3) if tier == "thorough" else (0, 1)
+        out.append(Task("model/dependency-contracts", lambda: validate.dependency_contracts(seeds), kind="enumerated",
+                        note="model/casadi vs the real CasADi on sampled inputs; a disagreement is a checker defect", bound=dict(operations=66, seeds=list(seeds))))
     return out
